@@ -31,6 +31,7 @@ pub struct ScriptedFile {
     pub pos: u64,
     pub script: std::collections::VecDeque<ReadEv>,
     pub seek_pending: bool,
+    pub seek_target: Option<u64>,
     pub pend_seeks: bool,
     /// when the script runs out: if Some(n) behave as Bytes(n) forever instead of stalling
     pub default_read: Option<usize>,
@@ -44,6 +45,7 @@ impl ScriptedFile {
             pos: 0,
             script: script.into(),
             seek_pending: false,
+            seek_target: None,
             pend_seeks: false,
             default_read: None,
             reads: 0,
@@ -83,17 +85,21 @@ impl AsyncRead for ScriptedFile {
 }
 
 impl AsyncSeek for ScriptedFile {
+    /// The seek takes effect when `poll_complete` reports it done (after one or two `Pending`s when
+    /// `pend_seeks` is set); a read issued before that still reads at the old position, as a reader
+    /// whose seek completes asynchronously may.
     fn start_seek(mut self: Pin<&mut Self>, position: SeekFrom) -> io::Result<()> {
         let len = self.data.len() as i64;
+        let base = self.seek_target.unwrap_or(self.pos);
         let np = match position {
             SeekFrom::Start(p) => p as i64,
             SeekFrom::End(d) => len + d,
-            SeekFrom::Current(d) => self.pos as i64 + d,
+            SeekFrom::Current(d) => base as i64 + d,
         };
         if np < 0 {
             return Err(io::Error::new(io::ErrorKind::InvalidInput, "negative seek"));
         }
-        self.pos = np as u64;
+        self.seek_target = Some(np as u64);
         self.seek_pending = self.pend_seeks;
         Ok(())
     }
@@ -102,6 +108,9 @@ impl AsyncSeek for ScriptedFile {
             self.seek_pending = false;
             cx.waker().wake_by_ref();
             return Poll::Pending;
+        }
+        if let Some(t) = self.seek_target.take() {
+            self.pos = t;
         }
         Poll::Ready(Ok(self.pos))
     }
